@@ -6552,7 +6552,10 @@ impl Machine {
 
     #[inline(always)]
     pub(crate) fn inference_limit_exceeded(&mut self) {
+        // test and clear: once the handler of the exceeded limit has seen the flag, counting
+        // must resume for the enclosing limits.
         self.machine_st.fail = !self.machine_st.cwil.inference_limit_exceeded;
+        self.machine_st.cwil.inference_limit_exceeded = false;
     }
 
     #[inline(always)]
